@@ -11,6 +11,7 @@ where
   fn_error: FunctionWrapper<'a, RxError, ()>,
   fn_complete: FunctionWrapper<'a, (), ()>,
   fn_on_unsubscribe: Arc<RwLock<Option<FunctionWrapper<'a, (), ()>>>>,
+  terminated: Arc<RwLock<bool>>,
 }
 
 impl<'a, T> Observer<'a, T>
@@ -32,6 +33,18 @@ where
       fn_error: FunctionWrapper::new(error),
       fn_complete: FunctionWrapper::new(move |_| complete()),
       fn_on_unsubscribe: Arc::new(RwLock::new(None)),
+      terminated: Arc::new(RwLock::new(false)),
+    }
+  }
+  // error() and complete() race for this flag: only the caller that sets it
+  // may deliver a terminal event.
+  fn begin_terminal(&self) -> bool {
+    let mut terminated = self.terminated.write().unwrap();
+    if *terminated {
+      false
+    } else {
+      *terminated = true;
+      true
     }
   }
   pub fn next(&self, x: T) {
@@ -40,12 +53,16 @@ where
     }
   }
   pub fn error(&self, x: RxError) {
-    if self.is_subscribed() {
+    if self.is_subscribed() && self.begin_terminal() {
+      self.fn_next.clear();
+      self.fn_complete.clear();
       self.fn_error.call_and_clear_if_available(x);
     }
   }
   pub fn complete(&self) {
-    if self.is_subscribed() {
+    if self.is_subscribed() && self.begin_terminal() {
+      self.fn_next.clear();
+      self.fn_error.clear();
       self.fn_complete.call_and_clear_if_available(());
     }
   }
